@@ -91,11 +91,15 @@ func (C10) Run(t *testing.T, sc any) *sim.Outcome {
 		return out
 	}
 	V := countOp(h0.Events, "inode")
+	treeInodes := 0
+	for _, r := range cfg.Roots {
+		treeInodes += r.Tree.Count()
+	}
 	replayOnly := len(cfg.Cancels) > 0
 
 	// ---- inode limit
 	if !replayOnly {
-		limits := uniqInts([]int{1, V - 1, V, V + 1, extra})
+		limits := uniqInts([]int{1, V - 1, V, V + 1, extra, treeInodes - 1, treeInodes})
 		for _, L := range limits {
 			if L <= 0 {
 				continue
@@ -126,6 +130,11 @@ func (C10) Run(t *testing.T, sc any) *sim.Outcome {
 			}
 			if V > L && o.Overall != plugin.ScanStatusFailed {
 				out.Violate("inode-limit-not-failed", "inode-limit-not-failed", "tree holds %d inodes, MaxInodes=%d, but overall status is %v; %s", V, L, o.Overall, ctxs)
+			}
+			// independent of what the engine counts: the trees hold treeInodes entries (directories,
+			// files, symlinks, special files; no skip rule is configured in this check)
+			if treeInodes > L && o.Overall != plugin.ScanStatusFailed {
+				out.Violate("inode-limit-not-failed", "inode-limit-not-failed:tree-count", "the scanned trees hold %d inodes (the engine counted %d), MaxInodes=%d, but overall status is %v; %s", treeInodes, V, L, o.Overall, ctxs)
 			}
 			if V <= L {
 				if o.Overall != h0.Overall || resultDigest(o) != resultDigest(h0) {
